@@ -378,13 +378,19 @@ def check_case(case, ctx):
         for n in names:
             e = env_models[n][()].constant()
             scal[n] = e
-        ints = [n for n in names if isinstance(scal[n], int)]
+        float_typed = {n for n, sp in zip(names, case["spec"])
+                       if sp["val"] and (sp["val"]["t"] in ("pyfloat", "pycomplex") or
+                                         str(sp["val"].get("dtype", "")).startswith(("float", "complex")))}
+        # (an argument that came as a float or complex number stays one: it decides that the result is inexact)
+        ints = [n for n in names if isinstance(scal[n], int) and n not in float_typed]
         if ints and all(isinstance(v, (int,)) or not isinstance(v, GQ) for v in scal.values()):
             base_kwargs = {}
             ok = True
             for n in names:
                 v = scal[n]
-                if isinstance(v, int):
+                if isinstance(v, int) and n in float_typed:
+                    base_kwargs[n] = float(v)  # (an integral float stays a float: it makes the result one)
+                elif isinstance(v, int):
                     base_kwargs[n] = v
                 elif isinstance(v, Fraction):
                     base_kwargs[n] = float(v)
